@@ -585,9 +585,10 @@ End Hier.
 
 (* ------------------------------------------------------------------ 7. the property's vocabulary *)
 
+Definition is_elem (f : field) : bool := match f_kind f with KElem => true | KAttr => false end.
+
 (** every member is an ordinary element member (XmlAttribute members are outside C16's universes) *)
-Definition elem_only (U : universe) : bool :=
-  forallb (fun cl => forallb (fun f => match f_kind f with KElem => true | KAttr => false end) (c_own cl)) U.
+Definition elem_only (U : universe) : bool := forallb (fun cl => forallb is_elem (c_own cl)) U.
 
 (** subclasses live in the namespace of their base: the only placement the interface registers *)
 Definition same_ns_tree (U : universe) : bool :=
@@ -595,6 +596,96 @@ Definition same_ns_tree (U : universe) : bool :=
                      | Some p => text_eqb (c_ns cl) (cls_ns U p)
                      | None => true
                      end) U.
+
+(** class [d] is in Interface.classes under its own key *)
+Definition registered (reg : registry) (U : universe) (d : cid) : bool :=
+  match reg_find reg (cls_ns U d, cls_name U d) with
+  | Some (TRef d') => Nat.eqb d' d
+  | _ => false
+  end.
+
+(** what get_namespace_prefix returns: 'tns', 's<n>' or a well-known prefix: not empty, no colon *)
+Definition pfx_ok (p : text) : bool :=
+  match p with [] => false | _ => forallb (fun c => negb (c =? 58)) p end.
+
+Section Vocab.
+  Variable L : leaf_codec.
+  Variable U : universe.
+  Variable poly : bool.                 (* may an instance of a subclass stand where a class is declared? *)
+  Variable regchk : cid -> bool.        (* is the runtime class known to the receiver (XML: registered in the interface) *)
+
+  (** values that conform to a declared type under the published schema (Wire.Xml.field_conf:
+      occurrence and nillable constraints, leaves in the domain of the leaf codec), with
+      instances of subclasses admitted when [poly]; every member an element member *)
+  Fixpoint pconf (fuel : nat) (t : ty) (v : val) : bool :=
+    match fuel with
+    | O => false
+    | S k =>
+        match v with
+        | VNone => true
+        | VLeaf p => match t with TPrim q => prim_has q p && lc_ok L q p | _ => false end
+        | VList vs => match t with TArr e => forallb (pconf k e) vs | _ => false end
+        | VObj d fs =>
+            match t with
+            | TRef c =>
+                (if poly then is_subclass U d c && (Nat.eqb d c || regchk d) else Nat.eqb d c)
+                && match flat_fields U d with
+                   | Some ffs => Nat.eqb (length ffs) (length fs)
+                                 && forallb (fun fv => is_elem (fst fv) && field_conf (pconf k) (fst fv) (snd fv))
+                                            (combine ffs fs)
+                   | None => false
+                   end
+            | _ => false
+            end
+        end
+    end.
+
+  (** the identifications of the property (Wire.Xml.norm_field: an empty unwrapped sequence is
+      None), keeping the runtime class of every object *)
+  Fixpoint pnorm (fuel : nat) (t : ty) (v : val) : val :=
+    match fuel with
+    | O => v
+    | S k =>
+        match t, v with
+        | TArr e, VList xs => VList (map (pnorm k e) xs)
+        | TRef c, VObj d fs =>
+            match flat_fields U d with
+            | Some ffs => VObj d (norm_fields (pnorm k) ffs fs)
+            | None => v
+            end
+        | _, _ => v
+        end
+    end.
+
+  (** the declared class's projection of a value: at every position only the members of the
+      declared class, as an instance of the declared class *)
+  Definition project_field (rec : ty -> val -> val) (f : field) (x : val) : val :=
+    if is_multi f then
+      match x with
+      | VList xs => VList (map (rec (f_ty f)) xs)
+      | _ => x
+      end
+    else rec (f_ty f) x.
+  Fixpoint project_fields (rec : ty -> val -> val) (ffs : list field) (vals : list val) : list val :=
+    match ffs, vals with
+    | f :: r, x :: xs => project_field rec f x :: project_fields rec r xs
+    | _, _ => []
+    end.
+  Fixpoint project (fuel : nat) (t : ty) (v : val) : val :=
+    match fuel with
+    | O => v
+    | S k =>
+        match t, v with
+        | TArr e, VList xs => VList (map (project k e) xs)
+        | TRef c, VObj d fs =>
+            match flat_fields U c with
+            | Some fc => VObj c (project_fields (project k) fc fs)
+            | None => v
+            end
+        | _, _ => v
+        end
+    end.
+End Vocab.
 
 (** structural equality of documents, for case files; maps compared as sets of pairs *)
 Fixpoint jv_eqb (a b : jv) : bool :=
